@@ -141,7 +141,15 @@ def classify(chk, obs, verdicts):
             if fid in chk.kf:
                 chk.known(fid)
                 continue
-            w = v["trans"] if law == "transitive" else []
+            if law == "generic-arguments-related":
+                ws = [types[x - 1] for x in v.get("gen", [])]
+                # every witness is an instantiation with a nullable argument (the '?' of a generic argument is dropped: KF-C20-1)
+                if ws and all(has_nullable_generic(t) for t in ws):
+                    fid = "KF-C20-1"
+                    if fid in chk.kf:
+                        chk.known(fid)
+                        continue
+            w = v["trans"] if law == "transitive" else (v.get("gen", [])[:3] if law == "generic-arguments-related" else [])
             chk.violation({"clause": law, "type": names[i - 1], "type_term": types[i - 1],
                            "witness": [names[x - 1] for x in w],
                            "what": "law '%s' fails for %s %s" % (law, names[i - 1], [names[x - 1] for x in w])},
